@@ -341,9 +341,9 @@ Qed.
    column for them), bond types and orders included *)
 Theorem df_roundtrip_partial v :
   normal (vt_chains v) -> df_exact v -> Forall vbond_ok (vt_bonds v) ->
-  num_chains 0 0 0 (fst (df_round v)) =
+  num_chains 0 0 0 (fst (df_round true v)) =
     map (fun c => {| vc_index := vc_index c; vc_id := None; vc_res := vc_res c |}) (vt_chains v) /\
-  snd (df_round v) = map bond4 (vt_bonds v).
+  snd (df_round true v) = map bond4 (vt_bonds v).
 Proof.
   intros Hn He Hb. unfold df_round. simpl. split.
   - rewrite (df_decode_exact v He). apply num_chains_df. exact Hn.
